@@ -5,4 +5,4 @@ CONSTANTS
   Shifts = {0}
 INVARIANT TypeOK
 INVARIANT LayoutSound
-INVARIANT GbBytesParserOkIffSingleRecord
+INVARIANT GbBytesParserOk
